@@ -543,7 +543,7 @@ def run(ctx):
     impl, model = vlib.rust_bin("hostfilter"), vlib.model_bin("hostfilter")
     rng = ctx.rng
     # ---- (1) single strings through Authority::try_from
-    n = ctx.scale(40000, 600000)
+    n = ctx.scale(12000, 450000)
     first = True
     while n > 0 and len(ctx.failures) < 2000:
         k = min(n, BATCH)
@@ -558,7 +558,7 @@ def run(ctx):
     else:
         ex = rng.sample(ex, 6000)
     run_req_batch(ctx, impl, model, ex)
-    n = ctx.scale(400000, 8000000)
+    n = ctx.scale(100000, 3200000)
     while n > 0 and len(ctx.failures) < 2000:
         k = min(n, BATCH)
         run_req_batch(ctx, impl, model, [gen_case(rng) for _ in range(k)])
